@@ -26,7 +26,7 @@ tvars == <<vars, l, hset>>
 TraceInit == Init /\ l = 2 /\ hset = {}
 IsEvent(e) == l <= Len(Rec) /\ Rec[l].ev = e /\ l' = l + 1
 
-TReg == IsEvent("reg") /\ Register(Rec[l].c, Rec[l].a) /\ UNCHANGED hset
+TReg == IsEvent("reg") /\ Register(Rec[l].c, Rec[l].a, Rec[l].at) /\ UNCHANGED hset
 TDereg == IsEvent("dereg") /\ Deregister(Rec[l].c, Rec[l].a) /\ UNCHANGED hset
 TClose == IsEvent("close") /\ Close(Rec[l].c) /\ UNCHANGED hset
 TDie == IsEvent("die") /\ Die(Rec[l].n) /\ UNCHANGED hset
@@ -39,10 +39,11 @@ OwnerOf(a) == IF \E o \in Node : alive[o] /\ a \in DOMAIN inst[o] /\ inst[o][a].
               THEN CHOOSE o \in Node : alive[o] /\ a \in DOMAIN inst[o] /\ inst[o][a].from = 0 ELSE 0
 TSettle ==
     /\ IsEvent("settle")
-    /\ msgs' = {}
+    /\ msgs' = [p \in Pairs |-> <<>>]
     /\ inst' = [n \in Node |-> IF ~alive[n] THEN inst[n]
                                ELSE [a \in {z \in Addr : OwnerOf(z) # 0} |->
-                                        [client |-> inst[OwnerOf(a)][a].client, from |-> IF OwnerOf(a) = n THEN 0 ELSE OwnerOf(a)]]]
+                                        [client |-> inst[OwnerOf(a)][a].client, from |-> IF OwnerOf(a) = n THEN 0 ELSE OwnerOf(a),
+                                         attr |-> inst[OwnerOf(a)][a].attr]]]
     /\ cidx' = [n \in Node |-> IF ~alive[n] THEN cidx[n]
                                ELSE [c \in {x \in Conn : \E a \in Addr : OwnerOf(a) # 0 /\ inst[OwnerOf(a)][a].client = x} |->
                                         {a \in Addr : OwnerOf(a) # 0 /\ inst[OwnerOf(a)][a].client = c}]]
@@ -50,7 +51,7 @@ TSettle ==
 
 TRead ==
     /\ IsEvent("read")
-    /\ View(Rec[l].n) = {<<x.a, x.c>> : x \in Range(Rec[l].view)}
+    /\ View(Rec[l].n) = {<<x.a, x.c, x.at>> : x \in Range(Rec[l].view)}
     /\ Range(Rec[l].hview) = hset
     /\ UNCHANGED <<vars, hset>>
 
